@@ -14,8 +14,11 @@ GENERATED = ["Datatypes", "SdoConst"]
 THEOREMS = [
     "Canopen.C07.timeout_aborts",
     "Canopen.C07.abort_raises",
+    "Canopen.C07.downloadWith_ok",
     "Canopen.C07.download_never_silently_wrong",
+    "Canopen.C07.distPeer_forwards",
     "Canopen.C07.upload_never_silently_wrong",
+    "Canopen.C07.schedPeer_honest",
     "Canopen.C07.next_transfer_clean",
 ]
 FINGERPRINT = c01.FINGERPRINT
